@@ -20,6 +20,10 @@ import (
 
 type abortSentinel struct{}
 
+// lockProtocolPanic stops a thread that is about to break the lock protocol in a way that would be
+// fatal for the whole process (sync: unlock of unlocked mutex) or silently void mutual exclusion.
+type lockProtocolPanic struct{ msg string }
+
 type thrState int
 
 const (
@@ -65,6 +69,7 @@ type execResult struct {
 	final    string
 	panicked []string
 	deadlock string
+	protocol string // lock-protocol breach (see lockProtocolPanic)
 	writes   []unlockedWrite
 	trace    []string
 	stale    map[string]bool
@@ -78,6 +83,7 @@ type sched struct {
 	abort   chan struct{}
 	aborted atomic.Bool
 	held    map[uintptr]int
+	inCS    map[uintptr]int // stack id -> thread currently between lock.held and lock.release
 	target  stackage.Stack
 	last    *stackage.VerifState
 	lastKey string
@@ -104,7 +110,15 @@ func schedHook(ev string, stackID, mutexID uintptr) {
 	case "lock.held":
 		s.held[mutexID] = t.id
 		t.holding++
+		if other, busy := s.inCS[stackID]; busy && other != t.id {
+			panic(lockProtocolPanic{fmt.Sprintf("T%d (%s) entered the locked section of a stack while T%d is still inside it (two different mutexes guard one stack)", t.id, t.curOp, other)})
+		}
+		s.inCS[stackID] = t.id
 	case "lock.release":
+		if owner, ok := s.held[mutexID]; !ok || owner != t.id {
+			panic(lockProtocolPanic{fmt.Sprintf("T%d (%s) is about to unlock a mutex it does not hold", t.id, t.curOp)})
+		}
+		delete(s.inCS, stackID)
 	case "lock.released":
 		delete(s.held, mutexID)
 		t.holding--
@@ -173,7 +187,7 @@ func diffClass(a, b *stackage.VerifState) string {
 
 // runSchedule executes one schedule: it follows prefix, then takes choice 0 at every later point.
 func runSchedule(mk func() stackage.Stack, progs [][]schedOp, prefix []int, monitor bool) *execResult {
-	s := &sched{yieldCh: make(chan int), abort: make(chan struct{}), held: map[uintptr]int{}, res: &execResult{stale: map[string]bool{}}, monitor: monitor}
+	s := &sched{yieldCh: make(chan int), abort: make(chan struct{}), held: map[uintptr]int{}, inCS: map[uintptr]int{}, res: &execResult{stale: map[string]bool{}}, monitor: monitor}
 	s.target = mk()
 	s.last = stackage.VerifDump(s.target)
 	s.lastKey = s.last.Key(false)
@@ -192,6 +206,9 @@ func runSchedule(mk func() stackage.Stack, progs [][]schedOp, prefix []int, moni
 				if r := recover(); r != nil {
 					if _, ok := r.(abortSentinel); ok {
 						return
+					}
+					if lp, ok := r.(lockProtocolPanic); ok {
+						s.res.protocol = lp.msg
 					}
 					t.panicked = fmt.Sprintf("%v\n%s", r, shortStack(debug.Stack()))
 				}
